@@ -1,4 +1,5 @@
 import Spake2Verif.Proofs.PropAuxA
+import Spake2Verif.Proofs.ProtoShapeTie
 /-!
 # C09 — Restoring under the wrong role or parameters is always detected
 
@@ -449,5 +450,17 @@ example :
         ⟨(3 : ℤ), (18 : ℤ), (8 : ℤ)⟩).toOption.map (fun i => i.outbound)) = some (some [12]) ∧
     (Inst.new (G := toyG) .A [1] [1] [2] toyParams ⟨[4]⟩).start.1.outbound = some [18] :=
   toy_k2
+
+/-- Tie A: the fingerprint recipe is that of the *source* -- `hash_params` hashes exactly the pieces
+`tools/py2lean.py` reads off the two `hash_params` methods, in their order -/
+theorem fingerprint_recipe_is_the_source {G : Group} (i : Inst G) :
+    i.hashParams = (do
+      let a ← G.arb []
+      let s ← G.scalarEnc (G.p2s [])
+      pure (hexlify (Sha.sha256 (ProtoShapeTie.hashPieces i.side (G.enc a) s
+        (G.enc i.params.M) (G.enc i.params.N) (G.enc i.params.S)).flatten))) ∧
+    Spake2Model.Gen.Proto.hash_effects_asym = ["arb_empty", "scalar_enc"] ∧
+    Spake2Model.Gen.Proto.hash_effects_sym = ["arb_empty", "scalar_enc"] :=
+  ProtoShapeTie.hashParams_tie i
 
 end Spake2Verif.C09
